@@ -68,6 +68,7 @@ type ReplayFile struct {
 	Trace    []string `json:"trace"`
 	Tree     string   `json:"tree_fingerprint"`
 	Race     bool     `json:"race_build"`
+	Tier     string   `json:"tier"` // scenario sizes depend on the tier: a replay must use the same one
 }
 
 func envInt(name string, def int) int {
@@ -204,7 +205,7 @@ func TestWorker(t *testing.T) {
 				fv.Key, fv.Msg = r1.V.Key, r1.V.Msg
 			}
 			rf := ReplayFile{Property: propID, Class: fv.Class, Key: fv.Key, Message: fv.Msg, Seed: seed, Worker: worker, Run: i,
-				RunSeed: runSeed, Tape: final, Hash: fmt.Sprintf("%016x", r1.Hash), Trace: r1.Notes, Tree: tree, Race: RaceBuild}
+				RunSeed: runSeed, Tape: final, Hash: fmt.Sprintf("%016x", r1.Hash), Trace: r1.Notes, Tree: tree, Race: RaceBuild, Tier: os.Getenv("VERIF_TIER")}
 			name := fmt.Sprintf("%s-%d-w%d-r%d.json", propID, seed, worker, i)
 			fv.Replay = filepath.Join(replDir, name)
 			b, _ := json.MarshalIndent(rf, "", " ")
